@@ -11,10 +11,11 @@ def check(rep):
     ER.rule_unweighted(ctx)
     ER.rule_choice_search(ctx, rid="C16.SHARED-TAIL")
     ER.rule_random_guarded(ctx, rid="C16.RANDOM-DELEGATES")
-    ER.rule_no_shared_state(ctx, rid="C16.PURE", modules={"binning/binning.py"})
+    ER.rule_retained_arguments(ctx, rid="C16.NO-RETAINED-ARGUMENT", modules={"binning/binning.py"})
+    ER.rule_value_keyed_caches(ctx, rid="C16.NO-VALUE-KEYED-CACHE", modules={"binning/binning.py"})
     rep.assume("NOT decided: floor(u*n) == bisect on equal integer weights in floating point")
     rep.assume("random.choices' own contract (never a zero-weight item) is trusted")
     return ("Parameters never mutated (alias-aware); every return is an element read of the population or random.choices(...)[0] "
             "with the three arguments forwarded by keyword; on every path that returns while weights of either kind may be present "
             "the three documented guards were evaluated and the both-kinds case raises TypeError (path enumeration with None-facts); "
-            "weights and cum_weights share one tail; the function keeps no state between calls.", TRUSTED)
+            "weights and cum_weights share one tail; the function retains no caller argument and no ==-keyed cache between calls.", TRUSTED)
